@@ -3877,8 +3877,8 @@ class TLSConnection(TLSRecordLayer):
         #server
         clientGroups = clientHello.getExtension(ExtensionType.supported_groups)
         # in case the client didn't advertise any curves, we can pick any so
-        # enable ECDHE
-        ecGroupIntersect = True
+        # enable ECDHE (provided that we have a curve enabled)
+        ecGroupIntersect = bool(self._curveNamesToList(settings, version))
         # if there is no extension, then enable DHE
         ffGroupIntersect = True
         if clientGroups is not None:
